@@ -16,6 +16,16 @@ def signature(v):
     return k
 
 
+def finding_class(d, text):
+    """DB2 only: the whitespace pre-pass (TAB / CR LF / U+3000 → blank) can CREATE the two-word `CURRENT DATE` inside a literal, which the DB2 text pre-pass then rewrites on
+    the second parse but not on the first (interplay of the two whole-text pre-passes, roots F-C06-1 and F-C06-3)"""
+    if d != "DB2":
+        return None
+    norm = text.replace("\r\n", "\n").replace("\t", " ").replace("\u3000", " ")
+    pat = re.compile(r"CURRENT (DATE|TIME)")
+    return "db2-current-created-by-whitespace-prepass" if len(pat.findall(norm)) > len(pat.findall(text)) else None
+
+
 def judge(ctx, d, text, answer, how):
     if not answer.startswith("OK"):
         return
@@ -24,7 +34,7 @@ def judge(ctx, d, text, answer, how):
         ctx.count("rt:" + (k if k in FINE else signature(v)))
         if k in FINE:
             continue
-        pfam.report(ctx, signature(v), {"kind": "input", "entry": "parse_statements + source", "dialect": d, "input": text,
+        pfam.report(ctx, finding_class(d, text) or signature(v), {"kind": "input", "entry": "parse_statements + source", "dialect": d, "input": text,
                                         "observed": v[:500], "oracle": "c01: statement %d: %s" % (i, k), "how_found": how})
 
 
@@ -53,6 +63,12 @@ def run(ctx):
     answers = E.run_impl(["RT %s %s" % (d, E.enhex(t)) for d, t, _ in cases])
     for (d, t, kind), a in zip(cases, answers):
         judge(ctx, d, t, a, "stream " + kind)
+    for f in ctx.findings:
+        if f.get("status") == "finding":
+            w = f["witness"]
+            a = E.run_impl(["RT %s %s" % (w["dialect"], E.enhex(w["input"]))])[0]
+            if a.startswith("OK") and any(v and v.split("|")[0] not in FINE for v in a.split(" ")[1:]):
+                ctx.report_known(f)
     # a correspondence disagreement: the disagreeing input and its neighbours are the first candidates
     pfam.conclude(ctx, search)
 
